@@ -243,7 +243,7 @@ Definition opt_env (e : option env) : env := match e with Some e => e | None => 
 Definition stdin_toks (i : option stream) : list tok :=
   match i with None | Some SDevnull => [] | Some x => [Op "<"; W (stream_str x)] end.
 Definition stdout_toks (o : stream) : list tok :=
-  match o with SStdout | SPipe | SDevnull => [] | SStr f => [Op ">"; W f] end.
+  match o with SStdout | SPipe => [] | SDevnull => [Op ">"; W "/dev/null"] | SStr f => [Op ">"; W f] end.
 Definition stderr_toks (o e : stream) : list tok :=
   let e1 := match e with SDevnull => SStr "/dev/null" | x => x end in
   if stream_eqb e1 o then [Op "2>&"; W "1"]
@@ -264,17 +264,23 @@ Proof.
     cbn [flushed append]; rewrite <- app_assoc; reflexivity.
 Qed.
 
-Lemma lex_stdout o inw cur acc rest : blankhead rest -> o <> SDevnull ->
+Lemma lex_lit_out_devnull inw cur acc rest :
+  lex Norm inw cur acc (" > /dev/null" ++ rest) = lex Norm true "/dev/null" (app (flushed inw cur acc) [Op ">"]) rest.
+Proof. reflexivity. Qed.
+
+Lemma lex_stdout o inw cur acc rest : blankhead rest ->
   exists inw' cur' acc', lex Norm inw cur acc (stdout_str o ++ rest) = lex Norm inw' cur' acc' rest /\
     flushed inw' cur' acc' = app (flushed inw cur acc) (stdout_toks o).
 Proof.
-  intros Hb Ho. pose proof (blank_head_no_redir rest Hb) as Hr.
+  intros Hb. pose proof (blank_head_no_redir rest Hb) as Hr.
   assert (Hn : exists inw' cur' acc', lex Norm inw cur acc rest = lex Norm inw' cur' acc' rest /\
                flushed inw' cur' acc' = app (flushed inw cur acc) [])
     by (exists inw, cur, acc; rewrite app_nil_r; split; reflexivity).
-  destruct o as [| | |s]; unfold stdout_str, stdout_toks; cbn [stream_str]; try exact Hn; try congruence.
-  rewrite append_assoc, lex_lit_out, lex_quote by exact Hr. eexists _, _, _. split; [reflexivity|].
-  cbn [flushed append]. rewrite <- app_assoc. reflexivity.
+  destruct o as [| | |s]; unfold stdout_str, stdout_toks; cbn [stream_str]; try exact Hn.
+  - rewrite lex_lit_out_devnull. eexists _, _, _. split; [reflexivity|].
+    cbn [flushed]. rewrite <- app_assoc. reflexivity.
+  - rewrite append_assoc, lex_lit_out, lex_quote by exact Hr. eexists _, _, _. split; [reflexivity|].
+    cbn [flushed append]. rewrite <- app_assoc. reflexivity.
 Qed.
 
 Lemma lex_stderr o er inw cur acc :
@@ -289,10 +295,9 @@ Proof.
       cbn [flushed append]; rewrite <- app_assoc; reflexivity.
 Qed.
 
-Lemma blankhead_stdout o rest : blankhead rest -> o <> SDevnull -> blankhead (stdout_str o ++ rest).
+Lemma blankhead_stdout o rest : blankhead rest -> blankhead (stdout_str o ++ rest).
 Proof.
-  intros Hb Ho. destruct o as [| | |s]; unfold stdout_str; try exact Hb; try congruence.
-  right. eexists. reflexivity.
+  intros Hb. destruct o as [| | |s]; unfold stdout_str; try exact Hb; right; eexists; reflexivity.
 Qed.
 Lemma blankhead_stderr o er : blankhead (stderr_str o er).
 Proof.
@@ -305,17 +310,17 @@ Proof.
 Qed.
 
 (* every interpolated string — working directory, environment values, redirection targets — is one
-   word, verbatim; stdout = DEVNULL is excluded (the code appends a bare "/dev/null" to the last word) *)
+   word, verbatim *)
 Theorem create_command_tokens cmd ts e w i o er :
   cmd_ok (join " " cmd) ts ->
   forallb (fun kv => key_ok (fst kv)) (opt_env e) = true ->
-  o <> SPipe -> o <> SDevnull ->
+  o <> SPipe ->
   exists line,
     create_command cmd e w i o er = inl line /\
     sh_lex line = Some (app (wd_toks "&&" w) (app (export_toks "&&" (opt_env e))
                         (app ts (app (stdin_toks i) (app (stdout_toks o) (stderr_toks o er)))))).
 Proof.
-  intros Hcmd Hk Ho1 Ho2. unfold create_command.
+  intros Hcmd Hk Ho1. unfold create_command.
   assert (Hline : exists line, (match o with SPipe => inr ErrStdoutPipe | _ =>
             inl ((match w with Some w0 => "cd " ++ quote w0 ++ " && " | None => "" end)
                  ++ (match e with Some e0 => cat (map export_and e0) | None => "" end)
@@ -342,12 +347,12 @@ Proof.
     - cbn [append opt_env export_toks flat_map]. rewrite app_nil_r. reflexivity. }
   rewrite Hw, He. cbn [app].
   pose proof (blankhead_stderr o er) as B3.
-  pose proof (blankhead_stdout o _ B3 Ho2) as B2.
+  pose proof (blankhead_stdout o _ B3) as B2.
   pose proof (blankhead_stdin i _ B2) as B1.
   rewrite (Hcmd _ _ B1).
   destruct (lex_stdin i false EmptyString
               (app (app (wd_toks "&&" w) (export_toks "&&" (opt_env e))) ts) _ B2) as (i1 & c1 & a1 & -> & F1).
-  destruct (lex_stdout o i1 c1 a1 _ B3 Ho2) as (i2 & c2 & a2 & -> & F2).
+  destruct (lex_stdout o i1 c1 a1 _ B3) as (i2 & c2 & a2 & -> & F2).
   rewrite lex_stderr. rewrite F2, F1. cbn [flushed]. rewrite <- !app_assoc. reflexivity.
 Qed.
 
@@ -365,83 +370,69 @@ Qed.
 Definition eff_w (w : option string) : option string := if nonempty_str w then w else None.
 Definition eff_e (e : option env) : env := if nonempty_env e then opt_env e else [].
 
-Definition export_semi (kv : string * string) : string := "export " ++ fst kv ++ "=" ++ quote (snd kv) ++ "; ".
-
 Lemma build_inner_eq cmd e w :
   build_inner cmd e w =
-  (match eff_w w with Some w0 => "cd " ++ quote w0 ++ "; " | None => "" end)
-  ++ cat (map export_semi (eff_e e)) ++ join " " cmd.
+  (match eff_w w with Some w0 => "cd " ++ quote w0 ++ " && " | None => "" end)
+  ++ cat (map export_and (eff_e e)) ++ join " " cmd.
 Proof.
   unfold build_inner. rewrite app_assoc, join_app_last. rewrite map_app. unfold cat at 1.
-  rewrite fold_right_app. fold (cat (map (fun y => y ++ "; ")
+  rewrite fold_right_app. fold (cat (map (fun y => y ++ " && ")
      (if nonempty_env e then match e with Some e0 => map (fun kv => "export " ++ fst kv ++ "=" ++ quote (snd kv)) e0 | None => [] end else []))).
-  assert (E : cat (map (fun y => y ++ "; ")
+  assert (E : cat (map (fun y => y ++ " && ")
      (if nonempty_env e then match e with Some e0 => map (fun kv => "export " ++ fst kv ++ "=" ++ quote (snd kv)) e0 | None => [] end else []))
-     = cat (map export_semi (eff_e e))).
+     = cat (map export_and (eff_e e))).
   { unfold eff_e. destruct (nonempty_env e); [|reflexivity]. destruct e as [e0|]; [|reflexivity].
-    cbn [opt_env]. rewrite map_map. f_equal. apply map_ext. intros [k v]. unfold export_semi.
+    cbn [opt_env]. rewrite map_map. f_equal. apply map_ext. intros [k v]. unfold export_and.
     cbn [fst snd]. rewrite !append_assoc. reflexivity. }
   rewrite E. unfold eff_w. destruct (nonempty_str w) eqn:Ew.
   - destruct w as [w0|]; [|discriminate]. cbn [map fold_right]. rewrite !append_assoc. reflexivity.
   - cbn [map fold_right append]. reflexivity.
 Qed.
 
-Lemma lex_exports_semi e : forall acc rest,
-  forallb (fun kv => key_ok (fst kv)) e = true ->
-  lex Norm false EmptyString acc (cat (map export_semi e) ++ rest)
-  = lex Norm false EmptyString (app acc (export_toks ";" e)) rest.
-Proof.
-  induction e as [|[k v] e IH]; intros acc rest Hk.
-  - simpl. rewrite app_nil_r. reflexivity.
-  - simpl in Hk. apply andb_true_iff in Hk. destruct Hk as [Hk He].
-    unfold key_ok in Hk. apply andb_true_iff in Hk. destruct Hk as [Hne Hsafe].
-    change (cat (map export_semi ((k, v) :: e))) with (export_semi (k, v) ++ cat (map export_semi e)).
-    unfold export_semi. cbn [fst snd]. rewrite !append_assoc.
-    rewrite lex_lit_export.
-    rewrite lex_plain by (try assumption; reflexivity).
-    cbn [orb]. rewrite Hne. change (EmptyString ++ k) with k.
-    rewrite lex_lit_eq.
-    rewrite lex_quote by reflexivity.
-    rewrite lex_lit_semi. cbn [flushed].
-    rewrite IH by exact He.
-    f_equal. cbn [export_toks flat_map]. rewrite append_assoc.
-    rewrite <- !app_assoc. reflexivity.
-Qed.
-
-(* the script handed to the inner [sh -c]: cd and every export receive their operand verbatim *)
+(* the script handed to the child [sh -c]: cd and every export receive their operand verbatim, and the
+   command comes after && (it does not run when cd or export fails) *)
 Theorem build_inner_tokens cmd ts e w :
   cmd_ok (join " " cmd) ts ->
   forallb (fun kv => key_ok (fst kv)) (eff_e e) = true ->
-  sh_lex (build_inner cmd e w) = Some (app (wd_toks ";" (eff_w w)) (app (export_toks ";" (eff_e e)) ts)).
+  sh_lex (build_inner cmd e w) = Some (app (wd_toks "&&" (eff_w w)) (app (export_toks "&&" (eff_e e)) ts)).
 Proof.
   intros Hcmd Hk. rewrite build_inner_eq. unfold sh_lex.
   assert (Hw : lex Norm false EmptyString []
-      ((match eff_w w with Some w0 => "cd " ++ quote w0 ++ "; " | None => "" end)
-       ++ cat (map export_semi (eff_e e)) ++ join " " cmd)
-      = lex Norm false EmptyString (wd_toks ";" (eff_w w)) (cat (map export_semi (eff_e e)) ++ join " " cmd)).
+      ((match eff_w w with Some w0 => "cd " ++ quote w0 ++ " && " | None => "" end)
+       ++ cat (map export_and (eff_e e)) ++ join " " cmd)
+      = lex Norm false EmptyString (wd_toks "&&" (eff_w w)) (cat (map export_and (eff_e e)) ++ join " " cmd)).
   { destruct (eff_w w) as [w0|]; [|reflexivity].
-    rewrite !append_assoc, lex_lit_cd, lex_quote by reflexivity. rewrite lex_lit_semi. reflexivity. }
-  rewrite Hw. rewrite lex_exports_semi by exact Hk.
+    rewrite !append_assoc, lex_lit_cd, lex_quote by reflexivity. rewrite lex_lit_andand. reflexivity. }
+  rewrite Hw. rewrite lex_exports by exact Hk.
   rewrite <- (append_nil_r (join " " cmd)). rewrite (Hcmd _ EmptyString (or_introl eq_refl)).
   rewrite lex_end. cbn [flushed]. rewrite <- app_assoc. reflexivity.
 Qed.
 
-(* the line written to the persistent shell: the whole inner script is ONE argument of sh -c *)
-Theorem build_cmd_line_wrapped cmd e w :
-  nonempty_env e || nonempty_str w = true ->
-  sh_lex (build_cmd_line cmd e w) = Some [W "sh"; W "-c"; W (build_inner cmd e w); Op "2>&"; W "1"].
+(* without environment and working directory the script of the child shell is the command, nothing else *)
+Theorem build_inner_plain cmd ts e w :
+  nonempty_env e || nonempty_str w = false -> cmd_ok (join " " cmd) ts ->
+  build_inner cmd e w = join " " cmd /\ sh_lex (build_inner cmd e w) = Some ts.
 Proof.
-  intros H. unfold build_cmd_line. rewrite H. unfold sh_lex.
-  rewrite lex_lit_sh_c, lex_quote by reflexivity. rewrite lex_lit_err2out. reflexivity.
+  intros H Hcmd. apply orb_false_iff in H. destruct H as [He Hw].
+  assert (E : build_inner cmd e w = join " " cmd).
+  { rewrite build_inner_eq. unfold eff_w, eff_e. rewrite He, Hw. reflexivity. }
+  split; [exact E|]. rewrite E. unfold sh_lex.
+  rewrite <- (append_nil_r (join " " cmd)). rewrite (Hcmd _ EmptyString (or_introl eq_refl)). reflexivity.
 Qed.
 
-Theorem build_cmd_line_plain cmd ts e w :
-  nonempty_env e || nonempty_str w = false -> cmd_ok (join " " cmd) ts ->
-  sh_lex (build_cmd_line cmd e w) = Some (app ts [Op "2>&"; W "1"]).
+Lemma lex_lit_devnull_err2out inw cur acc :
+  lex Norm inw cur acc " < /dev/null 2>&1"
+  = Some (app (app (app (app (flushed inw cur acc) [Op "<"]) [W "/dev/null"]) [Op "2>&"]) [W "1"]).
+Proof. reflexivity. Qed.
+
+(* the line written to the persistent shell, for EVERY command, environment and working directory: the whole
+   script is ONE argument of a child sh -c whose standard input is /dev/null *)
+Theorem build_cmd_line_wrapped cmd e w :
+  sh_lex (build_cmd_line cmd e w)
+  = Some [W "sh"; W "-c"; W (build_inner cmd e w); Op "<"; W "/dev/null"; Op "2>&"; W "1"].
 Proof.
-  intros H Hcmd. unfold build_cmd_line. rewrite H. unfold sh_lex.
-  rewrite (Hcmd _ _ (or_intror (ex_intro _ _ eq_refl))). rewrite lex_lit_err2out.
-  cbn [flushed app]. rewrite <- app_assoc. reflexivity.
+  unfold build_cmd_line, sh_lex.
+  rewrite lex_lit_sh_c, lex_quote by reflexivity. rewrite lex_lit_devnull_err2out. reflexivity.
 Qed.
 
 (* ---------------------------------------------------------------- the unquoted forms *)
